@@ -10,6 +10,7 @@ import functools
 import sys
 import threading
 import time
+import warnings
 
 import trio
 
@@ -166,7 +167,22 @@ def make_value(kind, pid):
         return NotImplemented
     if kind == "Ellipsis":
         return Ellipsis
+    if kind == "coro-object":
+        # a coroutine object handed back as a value (a factory of coroutines is an ordinary payload);
+        # nobody is obliged to await it
+        warnings.filterwarnings("ignore", message="coroutine .* was never awaited")
+        return _unstarted_coroutine(pid)
+    if kind == "generator-object":
+        return _unstarted_generator(pid)
     raise ValueError("unknown value kind %r" % kind)
+
+
+async def _unstarted_coroutine(pid):
+    return pid
+
+
+def _unstarted_generator(pid):
+    yield pid
 
 
 class ArrayLike:
@@ -192,6 +208,8 @@ class ArrayLike:
 
 FALSY_VALUES = ["0", "0.0", "False", "''", "[]", "()", "{}", "set()", "b''"]
 TRUTHY_VALUES = ["True", "str", "obj", "exc-instance", "1.5", "array-like", "NotImplemented", "Ellipsis"]
+# values that look like work still to be done (used by C10 only: what is returned is handed over untouched)
+LAZY_VALUES = ["coro-object", "generator-object"]
 
 
 def jsonable(x):
